@@ -120,9 +120,9 @@ pub fn gen_case(t: &mut Tape) -> Case {
         src.push_str(&format!("{q}fn gpick<'a>(xs: &'a [u64]) -> &'a u64 {{ let v = vec![xs[0]]; {y}&xs[(v[0] % 2) as usize] }}\n"));
     }
     // ... and an entraited trait with methods that take `self` by value (default delegation to `Self`)
-    let byval = t.weighted(&[2, 1, 1]); // 0 none, 1 `?Send`, 2 `Send` supertrait
+    let byval = t.weighted(&[2, 1, 1, 1]); // 0 none, 1 `?Send`, 2 `Send` supertrait, 3 neither
     if byval > 0 {
-        let (opt, sup) = if byval == 1 { ("?Send", "") } else { ("", ": Send") };
+        let (opt, sup) = if byval == 1 { ("?Send", "") } else if byval == 2 { ("", ": Send") } else { ("", "") };
         src.push_str(&format!(
             "#[::entrait::entrait({opt})]\npub trait ByVal{sup} {{ async fn consume(self, x: u64) -> u64; fn consume_sync(self, x: u64) -> u64; }}\n#[derive(Clone, Copy)] pub struct Bv;\n\
              impl ByVal for Bv {{ async fn consume(self, x: u64) -> u64 {{ let v = vec![x, x]; rt::yield_once().await; v[1] + 1 }} fn consume_sync(self, x: u64) -> u64 {{ let v = vec![x]; v[0] + 2 }} }}\n"
